@@ -698,18 +698,24 @@ Definition c12_result (fx : bool) (fuel : nat) (dev_name : string) (d : device) 
   | Fail _ => "-"
   end.
 
-(* C13 spec verdict per kind: first instance (in instance order) whose address does not fit the kind's
-   address type: "unfit:<kind>|<name>|<address>|<tags>", "missing:<kind>" when instances of a kind exist
-   without an address type, else "fits" *)
+(* the tags that matter for C13 (TOwnFlag is about C12 only) *)
+Definition c13_tags (i : instance) : list tag := filter (fun t => negb (tag_eqb t TOwnFlag)) (i_tags i).
+Definition untagged (i : instance) : bool := match c13_tags i with [] => true | _ => false end.
+
+(* C13 spec verdict per kind: an instance whose address does not fit the kind's address type — the first
+   UNTAGGED one if there is one (outside every known class), else the first:
+   "unfit:<kind>|<name>|<address>|<tags>"; "missing:<kind>" when instances of a kind exist without an
+   address type; else nothing *)
 Definition c13_spec_kind (g : config) (l : list instance) (k : akind) : option string :=
   let mine := filter (fun i => akind_eqb (i_kind i) k) l in
   match mine, address_type_of g k with
   | [], _ => None
   | _ :: _, None => Some ("missing:" ++ show_akind k)
   | _ :: _, Some t =>
-      match find (fun i => negb (in_range (integer_ity t) (i_addr i))) mine with
+      let unfit := filter (fun i => negb (in_range (integer_ity t) (i_addr i))) mine in
+      match or_else_opt (find untagged unfit) (hd_error unfit) with
       | Some i => Some ("unfit:" ++ show_akind k ++ "|" ++ instance_display i ++ "|" ++ show_Z (i_addr i) ++ "|"
-                        ++ show_tags (i_tags i))
+                        ++ show_tags (c13_tags i))
       | None => None
       end
   end.
@@ -718,9 +724,10 @@ Definition c13_spec (fuel : nat) (d : device) : string :=
   match instances fuel (d_objects d) with
   | Fail k => "fail:" ++ show_outcome_kind k
   | Ok l =>
-    match find_some (c13_spec_kind (d_config d) l) [KRegister; KCommand; KBuffer] with
-    | Some s => s
-    | None => "fits"
+    match flat_map (fun k => match c13_spec_kind (d_config d) l k with Some s => [s] | None => [] end)
+                   [KRegister; KCommand; KBuffer] with
+    | [] => "fits"
+    | vs => String.concat ";" vs
     end
   end.
 
@@ -752,7 +759,7 @@ Definition l2_line (g : config) (it : ity) (i : instance) : string :=
   show_Z (i_addr i) ++ "|" ++
   show_outcome_Z (gen_addr true it at_ (i_path i)) ++ "|" ++
   show_outcome_Z (gen_addr false it at_ (i_path i)) ++ "|" ++
-  show_tags (i_tags i).
+  show_tags (c13_tags i).
 
 Definition c13_l2 (fuel : nat) (d : device) : string :=
   match instances fuel (d_objects d), internal_type d with
